@@ -279,6 +279,18 @@ def rzleDecide (s : Imp) (e : HEdge) (sn on : HNode) : Option (Nat × Nat × Imp
                  t := t1 })
     else none
 
+/-- the test `!edge->hasFixedRoute && edge->zeroLength()` and the choice of target / source for the
+    edge `e` met at node `sn` (= `self`) -/
+def rzleDec (s : Imp) (e : HEdge) (sn : HNode) (self : Nat) : Option (Nat × Nat × Imp) :=
+  if !e.hasFixedRoute && zeroLength s.t e then
+    match e.followFrom self with
+    | none => none
+    | some o =>
+      match s.t.node? o with
+      | none => none
+      | some on => rzleDecide s e sn on
+  else none
+
 mutual
 /-- `HyperedgeImprover::removeZeroLengthEdges(HyperedgeTreeNode *self, HyperedgeTreeEdge *ignored)` -/
 def rzleNode : Nat → Imp → Nat → Option Nat → Option Imp
@@ -298,16 +310,7 @@ def rzleLoop : Nat → Imp → Nat → Option Nat → List Nat → Option Imp
     | some e, some sn =>
       -- the C++ iterates the LIVE list: an edge met by the iterator is in `self->edges` now
       if !sn.edges.contains eid then none else
-      let dec : Option (Nat × Nat × Imp) :=
-        if !e.hasFixedRoute && zeroLength s.t e then
-          match e.followFrom self with
-          | none => none
-          | some o =>
-            match s.t.node? o with
-            | none => none
-            | some on => rzleDecide s e sn on
-        else none
-      match dec with
+      match rzleDec s e sn self with
       | some (target, source, s1) =>
         match contract s1.t eid target source with
         | none => none
@@ -325,19 +328,18 @@ def rzleEdge : Nat → Imp → Nat → Nat → Option Imp
     match s.t.edge? eid with
     | none => none
     | some e =>
-      let s1? : Option Imp :=
-        match e.e1 with
-        | some a => if a != ignored then rzleNode f s a (some eid) else some s
-        | none => none
-      match s1? with
+      match e.e1 with
       | none => none
-      | some s1 =>
-        match s1.t.edge? eid with
+      | some a =>
+        match (if a != ignored then rzleNode f s a (some eid) else some s) with
         | none => none
-        | some e' =>
-          match e'.e2 with
-          | some b => if b != ignored then rzleNode f s1 b (some eid) else some s1
+        | some s1 =>
+          match s1.t.edge? eid with
           | none => none
+          | some e' =>
+            match e'.e2 with
+            | none => none
+            | some b => if b != ignored then rzleNode f s1 b (some eid) else some s1
 end
 
 /-- fuel that suffices on a tree: every contraction restarts the traversal of one node -/
